@@ -18,7 +18,8 @@ L(ss) == <<"Arr", [i \in 1..Len(ss) |-> S(ss[i])]>>
 Lists == { <<>>, <<<<97>>>>, <<<<97>>, <<98>>>>, <<<<97,98>>, <<97>>>>, <<<<>>, <<97>>, <<>>>> }
 
 Subjects == {<<>>, <<97>>, <<98>>, <<99>>, <<97,98>>, <<98,97>>, <<97,99>>, <<97,98,99>>, <<97,98,97,98>>, <<99,97,98>>, <<97,120,98>>,
-             <<98,98,99>>, <<97,98,98,98>>, <<97,99,99,97>>, <<98,99,98,99,97>>, <<120>>}
+             <<98,98,99>>, <<97,98,98,98>>, <<97,99,99,97>>, <<98,99,98,99,97>>, <<120>>,
+             <<97,97>>, <<97,123,50,125>>, <<97,98,123,50,125>>, <<98,123,49,44,50,125>>}      \* aa, and pattern texts as subjects: a{2} ab{2} b{1,2}
 GroupsC17 == { <<"re", p>> : p \in RePool } \cup { <<"pair", s>> : s \in Strs2 } \cup { <<"pos", s>> : s \in Strs2 } \cup { <<"one">>, <<"lists">> }
              \cup { <<"pad", s>> : s \in Strs2 } \cup { <<"law", s>> : s \in Strs2 }
 GroupProgramsC17(g) ==
